@@ -54,6 +54,8 @@ Catalogue == [
   w_snappy |-> W(1, <<5, 3>>, 1, 64, "p", "a"),
   r_fread  |-> R(1, <<5, 3>>, 0, 64, "f", 1, "a"),
   b_mmap   |-> B(1, <<5, 3>>, 1, 64, "m", 3, 1, <<>>, "a"),
+  \* six row groups (the row-group table grows at the 1st and the 5th flush), the client closes normally after the error
+  w_groups_c |-> W(2, <<2, 1, 1, 1, 1, 2>>, 1, 64, "p", "c"),
   \* --- thorough tier
   s_flat   |-> SC(<<AddC(<<97>>, 1, 1, 0), AddC(<<98, 98>>, 6, 0, 0), AddC(<<>>, 7, 1, 4)>>, "a"),
   s_group  |-> SC(<<AddG(<<103>>, 1), AddC(<<97>>, 1, 1, 0), AddC(<<98>>, 6, 0, 0), AddG(<<104>>, 2), AddC(<<99>>, 5, 2, 0)>>, "n"),
